@@ -3,8 +3,9 @@
 import ast
 
 from .. import AnalysisError
-from ..astutil import src, call_name, dotted, walk_local, try_fold, ancestors
-from ..fn import FA
+from ..astutil import src, call_name, dotted, walk_local, try_fold, ancestors, path_conditions
+from ..fn import FA, expand
+from ..normal import canon_expr
 
 META = {
     'property': 'C15',
@@ -172,21 +173,78 @@ def check_pure_props(ctx, repo):
     return n
 
 
+def _sum0(e):
+    """M when e is M.sum(0) / M.sum(axis=0) / np.sum(M, 0) / np.sum(M, axis=0)."""
+    if not (isinstance(e, ast.Call) and call_name(e) == 'sum' and isinstance(e.func, ast.Attribute)):
+        return None
+    args = list(e.args)
+    if isinstance(e.func.value, ast.Name) and e.func.value.id in ('np', 'numpy'):
+        if not args:
+            return None
+        recv, args = args[0], args[1:]
+    else:
+        recv = e.func.value
+    ax = [try_fold(k.value) for k in e.keywords if k.arg == 'axis'] or [try_fold(a) for a in args[:1]]
+    return recv if ax == [0] else None
+
+
 def check_usemask(ctx, repo):
     f = repo.func(SPEC1D, 'pca_solve')
+    fa = FA(f)
     ctx.cover(f)
-    st = [s for s in walk_local(f.node) if isinstance(s, ast.Assign) and src(s.targets[0]) == 'usemask']
-    forms = sorted(src(s.value) for s in st)
-    ok = forms == ['outmask', 'outmask.sum(0)']
-    if ok:
-        two = [s for s in st if src(s.value) == 'outmask.sum(0)'][0]
-        one = [s for s in st if src(s.value) == 'outmask'][0]
-        par = one._parent
-        ok = isinstance(par, ast.If) and one in par.body and two in par.orelse and src(par.test) in ('nobj == 1', 'outmask.ndim == 1', 'newflux.ndim == 1')
-    ctx.check('C15.USEMASK', ok, f, st[0] if st else f.node, 'usemask = outmask.sum(0): number of good spectra per pixel (outmask itself for a single spectrum)',
+
+    def stored(key):
+        out = []
+        for s_ in walk_local(f.node):
+            if isinstance(s_, ast.Assign) and len(s_.targets) == 1 and isinstance(s_.targets[0], ast.Subscript) and try_fold(s_.targets[0].slice) == key:
+                out.append((s_, s_.value))
+            if isinstance(s_, ast.Dict):
+                for k, v in zip(s_.keys, s_.values):
+                    if k is not None and try_fold(k) == key and any(isinstance(a, ast.Return) or isinstance(a, ast.Assign) for a in ancestors(s_)):
+                        out.append((s_, v))
+        return out
+    um = stored('usemask')
+    om = stored('outmask')
+    ctx.need(len(um) == 1 and len(om) == 1 and isinstance(om[0][1], ast.Name), 'pca_solve: the usemask / outmask entries of the result were not found')
+    mask = om[0][1].id
+
+    def leaves(e, cond, depth=0):
+        if depth > 4:
+            return [(e, cond)]
+        if isinstance(e, ast.IfExp):
+            return leaves(e.body, cond + [(e.test, True)], depth + 1) + leaves(e.orelse, cond + [(e.test, False)], depth + 1)
+        if isinstance(e, ast.Name) and e.id != mask:
+            out = []
+            for d, v in fa.defs(e):
+                if v is None:
+                    return [(e, cond)]
+                out += leaves(v, cond + path_conditions(d), depth + 1)
+            return out
+        return [(e, cond)]
+
+    def single(conds):
+        """True when the conditions say 'exactly one spectrum' (nobj == 1, ndim == 1), False when they say the opposite, None otherwise."""
+        for t, pol in conds:
+            t = canon_expr(t)
+            if isinstance(t, ast.Compare) and len(t.ops) == 1 and isinstance(t.ops[0], (ast.Eq, ast.NotEq)):
+                sides = [t.left, t.comparators[0]]
+                if any(try_fold(x) == 1 for x in sides) and any(not isinstance(x, ast.Constant) for x in sides):
+                    return pol if isinstance(t.ops[0], ast.Eq) else not pol
+        return None
+    lv = leaves(um[0][1], [])
+    kinds = []
+    for e, cond in lv:
+        m_ = _sum0(e)
+        if isinstance(m_, ast.Name) and m_.id == mask:
+            kinds.append(('count', single(cond)))
+        elif isinstance(e, ast.Name) and e.id == mask:
+            kinds.append(('mask', single(cond)))
+        else:
+            kinds.append(('other', single(cond)))
+    ok = any(k == 'count' for k, _ in kinds) and all((k == 'count' and sg is not True) or (k == 'mask' and sg is True) for k, sg in kinds)
+    forms = sorted(src(e) for e, _ in lv)
+    ctx.check('C15.USEMASK', ok, f, um[0][0], 'usemask = outmask.sum(0): number of good spectra per pixel (outmask itself for a single spectrum)',
               msg='usemask is defined as %s' % forms, construct='usemask %s' % forms)
-    store = [s for s in walk_local(f.node) if isinstance(s, ast.Assign) and src(s.targets[0]) == "fluxdict['usemask']"]
-    ctx.need(len(store) == 1 and src(store[0].value) == 'usemask', 'pca_solve: usemask not returned')
 
 
 def check_pinv(ctx, repo):
